@@ -48,7 +48,7 @@ fn endpoint(cx: &mut Cx, node: NodeId, h: Arc<Honest>, art: &'static str, s: Sui
 }
 
 pub fn run_c11(cx: &mut Cx) {
-    cx.preemptions_left = cx.ch.choose("preemptions", 3) as u32;
+    cx.preemptions_left = cx.ch.choose("preemptions", 5) as u32;
     let a = cx.node("site-a");
     let b = cx.node("site-b");
     let suite = Suite::from_idx(cx.run_index);
